@@ -21,8 +21,9 @@ LEVEL = 'proof'
 RULE = ('cases = (dependency graph, request list, default target): all labelled digraphs with self-loops on 1..3 targets x all '
         'non-empty request subsets; all digraphs with self-loops on 4 targets up to isomorphism x all 15 request subsets '
         '(thorough; quick: the 218 loop-free classes x 15 plus a seeded sample of the classes with self-loops); graphs with an '
-        'undefined dependency; permuted/repeated request lists; empty request with/without default; thorough adds the 9608 '
-        'loop-free classes on 5 targets x 31 request subsets. Oracle-only sweep: all labelled loop-free digraphs on 4 targets '
+        'undefined dependency; permuted/repeated request lists; empty request with/without default; acyclic graphs on 5 targets '
+        '(all 1024 edge subsets of a linear order, renamed by a seeded permutation; quick: 120 of them) x 31 request subsets; '
+        'thorough adds the 9608 loop-free classes on 5 targets x 31 request subsets. Oracle-only sweep: all labelled loop-free digraphs on 4 targets '
         '(quick), all 65536 labelled digraphs on 4 targets (thorough). distinct non-trivial = distinct (graph, request) whose '
         'reachable part has at least one dependency edge')
 EXPLANATION = ('Unbounded Coq theorems (every graph, every dependency/request order, every default) about the hand model of the '
@@ -268,6 +269,24 @@ def family(spec, rng):
             yield g, ['zz'], None, True
             yield g, [NAMES[0], 'zz'], None, True
             yield g, ['zz', NAMES[0]], None, True
+    elif kind == 'dag':
+        # acyclic graphs: every subset of the edges i -> j (i < j), targets renamed by a seeded permutation
+        n = spec['n']
+        pairs = [(i, j) for i in range(n) for j in range(n) if i < j]
+        masks = list(range(1 << len(pairs)))
+        if spec.get('sample'):
+            masks = rng.sample(masks, min(spec['sample'], len(masks)))
+        subs = subsets(n)
+        for m in masks:
+            p = list(range(n))
+            rng.shuffle(p)
+            deps = {i: [] for i in range(n)}
+            for k, (i, j) in enumerate(pairs):
+                if (m >> k) & 1:
+                    deps[p[i]].append(p[j])
+            g = [(NAMES[i], [NAMES[j] for j in deps[i]]) for i in range(n)]
+            for req in subs:
+                yield g, req, None, True
     elif kind == 'reqorder':
         # permuted and repeated request lists, default target handling
         n = spec['n']
@@ -461,11 +480,13 @@ def families_for(ctx, deep):
             {'kind': 'canonical', 'n': 4, 'loops': False, 'records': True, 'name': 'canonical-4-loopfree'},
             {'kind': 'canonical', 'n': 4, 'loops': True, 'only_with_loops': True, 'sample': 150, 'records': True,
              'name': 'canonical-4-selfloops-sample'},
+            {'kind': 'dag', 'n': 5, 'sample': 120, 'records': True, 'name': 'dag-5-sample'},
         ]
     else:
         fams += [
             {'kind': 'canonical', 'n': 4, 'loops': True, 'records': True, 'name': 'canonical-4'},
             {'kind': 'canonical', 'n': 5, 'loops': False, 'records': True, 'name': 'canonical-5-loopfree'},
+            {'kind': 'dag', 'n': 5, 'records': True, 'name': 'dag-5'},
         ]
     # oracle-only sweeps
     fams.append({'kind': 'labelled', 'n': 4, 'loops': False, 'records': False, 'name': 'oracle-labelled-4-loopfree'})
@@ -607,6 +628,26 @@ def search(ctx):
             ctx.cov['evaluations'] += fam['count']
             for f in fam['fails'][:6]:
                 report(ctx, fam['spec']['name'], f)
+
+
+def replay(rec):
+    """./check C34 --replay FILE: re-execute the recorded input on the implementation"""
+    from vlib import impl_env
+    a = rec.get('args') or {}
+    if 'graph' not in a:
+        print(json.dumps(rec, indent=1))
+        return 0
+    code = ('import sys, json; sys.path.insert(0, %r)\n'
+            'import c34\n'
+            'env = c34._worker_setup()\n'
+            'g = [(n, ds) for n, ds in %r.items()]\n'
+            'o, orders, top = c34.impl_run(env, g, %r, %r)\n'
+            'eff = %r or ([%r] if %r else [])\n'
+            'print("outcome:", o[:2]); why = c34.oracle(g, eff, o)\n'
+            'print("verdict:", why or "satisfies the property"); sys.exit(1 if why else 0)\n'
+            ) % (HERE, a['graph'], a.get('targets', []), a.get('default'), a.get('targets', []), a.get('default'), a.get('default'))
+    p = subprocess.run([sys.executable, '-c', code], env=impl_env())
+    return p.returncode
 
 
 MANIFEST = {
